@@ -45,6 +45,10 @@ struct Engine {
 	virtual const char *name() const = 0;
 	// tier: 0 quick, 1 thorough
 	virtual Plan generate(uint64_t seed, const std::string &property, int tier) = 0;
+	// engines that enumerate a space (C19) map the run index to a case; the default ignores the index
+	virtual Plan generate_at(uint64_t index, uint64_t seed, const std::string &property, int tier) { (void)index; return generate(seed, property, tier); }
+	virtual uint64_t planned_runs(int tier) { (void)tier; return 0; }
+	virtual void extra_evidence(js::Val &coverage, int tier) { (void)coverage; (void)tier; }
 	virtual RunResult execute(const Plan &p, bool trace) = 0;
 	// neutral values used by the shrinker for config keys ("defaults"); keys not listed are left alone
 	virtual std::map<std::string, int64_t> neutral_cfg() const { return {}; }
